@@ -12,7 +12,7 @@
 //! prints what the loader reports and deletes the files.
 //!
 //!   c19 selftest [N]     writes N generated objects and compares `readelf -a -W` with their descriptions
-use falcon::loader::{Elf, ElfLinkerBuilder, Loader};
+use falcon::loader::{Elf, ElfLinker, ElfLinkerBuilder, Loader};
 use fvh::canon::{catch, err_str};
 use fvh::{run_main, Emit, Rng, Tier};
 use std::path::PathBuf;
@@ -565,6 +565,10 @@ fn build_dynamic(o: &mut Obj, vaddr: u64, plt_rela: bool, got: &[u32], mips: Opt
 struct St {
     objs: Vec<Obj>,
     users: Vec<u64>,
+    /// after `link`: the live linker and the directory that holds the files
+    linker: Option<(ElfLinker, PathBuf)>,
+    /// a linker call failed: the Rust object is in an unspecified state, later calls answer `skipped`
+    dead: bool,
 }
 
 fn parse_sym(t: &[&str]) -> Option<Sym> {
@@ -816,37 +820,88 @@ fn load_answer(o: &Obj, users: &[u64], base: u64) -> String {
     }
 }
 
-fn link_answer(objs: &[Obj]) -> String {
-    let dir = scratch().join(format!("l{}", fresh()));
-    let _ = std::fs::create_dir_all(&dir);
+/// writes every described object into `dir`; `None` when that is not possible
+fn write_objs(dir: &PathBuf, objs: &[Obj]) -> Option<Vec<Vec<u8>>> {
     let mut files = Vec::new();
     for o in objs {
         let f = write_file(o);
         if o.name.contains('/') || std::fs::write(dir.join(&o.name), &f).is_err() {
-            let _ = std::fs::remove_dir_all(&dir);
-            return "bad-request:io".to_string();
+            return None;
         }
         files.push(f);
     }
-    let main = dir.join(&objs[0].name);
-    let r = catch(|| ElfLinkerBuilder::new(main).ld_paths(Some(vec![dir.clone()])).link());
-    let _ = std::fs::remove_dir_all(&dir);
-    match r {
-        None => "panic".to_string(),
-        Some(Err(e)) => err_str(&e).to_string(),
-        Some(Ok(l)) => {
-            for (name, e) in l.loaded() {
-                match objs.iter().position(|o| &o.name == name) {
-                    None => return "bad-request:loaded-unknown".to_string(),
-                    Some(i) => {
-                        if let Some(w) = goblin_differs(e, &objs[i], &files[i]) {
-                            return format!("bad-request:{}:{}", name, w);
-                        }
-                    }
+    Some(files)
+}
+
+/// goblin's view of every loaded object against its description, then what the linker reports
+fn observe_linker(l: &ElfLinker, objs: &[Obj], files: &[Vec<u8>]) -> String {
+    for (name, e) in l.loaded() {
+        match objs.iter().position(|o| &o.name == name) {
+            None => return "bad-request:loaded-unknown".to_string(),
+            Some(i) => {
+                if let Some(w) = goblin_differs(e, &objs[i], &files[i]) {
+                    return format!("bad-request:{}:{}", name, w);
                 }
             }
-            observe(&l)
         }
+    }
+    observe(l)
+}
+
+/// `link`: ElfLinkerBuilder::new(first object).link(); the linker stays alive for later `loadelf` calls
+fn link_answer(st: &mut St) -> String {
+    if let Some((_, d)) = st.linker.take() {
+        let _ = std::fs::remove_dir_all(&d);
+    }
+    let dir = scratch().join(format!("l{}", fresh()));
+    let _ = std::fs::create_dir_all(&dir);
+    let files = match write_objs(&dir, &st.objs) {
+        Some(f) => f,
+        None => {
+            let _ = std::fs::remove_dir_all(&dir);
+            return "bad-request:io".to_string();
+        }
+    };
+    let main = dir.join(&st.objs[0].name);
+    let r = catch(|| ElfLinkerBuilder::new(main).ld_paths(Some(vec![dir.clone()])).link());
+    match r {
+        None | Some(Err(_)) => {
+            let _ = std::fs::remove_dir_all(&dir);
+            st.dead = true;
+            match r {
+                Some(Err(e)) => err_str(&e).to_string(),
+                _ => "panic".to_string(),
+            }
+        }
+        Some(Ok(l)) => {
+            let a = observe_linker(&l, &st.objs, &files);
+            st.linker = Some((l, dir));
+            st.dead = false;
+            a
+        }
+    }
+}
+
+/// `loadelf <name> <base>`: a further call of the public `ElfLinker::load_elf` on the live linker
+fn loadelf_answer(st: &mut St, name: &str, base: u64) -> String {
+    if st.dead || st.linker.is_none() {
+        return "skipped".to_string();
+    }
+    let (l, dir) = st.linker.as_mut().unwrap();
+    let files = match write_objs(dir, &st.objs) {
+        Some(f) => f,
+        None => return "bad-request:io".to_string(),
+    };
+    match catch(|| l.load_elf(std::path::Path::new(name), base)) {
+        None => {
+            st.dead = true;
+            "panic".to_string()
+        }
+        Some(Err(e)) => {
+            st.dead = true;
+            err_str(&e).to_string()
+        }
+        Some(Ok(())) => observe_linker(l, &st.objs, &files),
     }
 }
 
@@ -864,15 +919,22 @@ fn answer(req: &str) -> String {
                 if st.objs.is_empty() {
                     "bad-request".to_string()
                 } else {
-                    link_answer(&st.objs)
+                    link_answer(&mut st)
                 }
             }
+            ["loadelf", name, b] => match b.parse::<u64>() {
+                Ok(b) => loadelf_answer(&mut st, name, b),
+                Err(_) => "bad-request".to_string(),
+            },
             _ => match declare(&mut st, &t) {
                 Some(()) => "ok".to_string(),
                 None => "bad-request".to_string(),
             },
         };
         out.push(a);
+    }
+    if let Some((_, d)) = st.linker.take() {
+        let _ = std::fs::remove_dir_all(&d);
     }
     out.join(SEP)
 }
@@ -1292,25 +1354,44 @@ fn load_queries(bs: &[u64]) -> Vec<String> {
 struct LinkCase {
     objs: Vec<Obj>,
     class: String,
+    /// `link` followed by the further `loadelf` calls of the history
+    calls: Vec<String>,
 }
 
 /// main program + 1..3 shared objects with DT_NEEDED edges, exports, imports and the relocations falcon's
 /// linker implements (x86: R_386_32/GLOB_DAT/JMP_SLOT/RELATIVE; MIPS o32: GOT + R_MIPS_REL32)
-fn gen_link(rng: &mut Rng, a: &ArchSel, sibling: bool) -> LinkCase {
+/// `extra` > 0: a HISTORY on one linker: objects the program does not need (shared objects, with and without
+/// dependencies of their own, and a second program) are loaded by further `load_elf` calls; names already loaded are
+/// loaded again (at the same base or at another one); the last call may name a file that does not exist.
+fn gen_link(rng: &mut Rng, a: &ArchSel, sibling: bool, extra: usize) -> LinkCase {
     let mips = a.machine == 8;
     let nlib = 1 + rng.below(3) as usize;
-    let names: Vec<String> = std::iter::once("prog".to_string()).chain((0..nlib).map(|i| format!("lib{}.so", (b'a' + i as u8) as char))).collect();
+    let mut names: Vec<String> = std::iter::once("prog".to_string()).chain((0..nlib).map(|i| format!("lib{}.so", (b'a' + i as u8) as char))).collect();
+    let n1 = names.len();
+    for k in 0..extra {
+        names.push(if k + 1 == extra && rng.chance(1, 2) { "prog2".to_string() } else { format!("lib{}.so", (b'x' + k as u8) as char) });
+    }
     let n = names.len();
     // DT_NEEDED edges
     let mut needs: Vec<Vec<usize>> = vec![Vec::new(); n];
-    for i in 1..n {
-        for j in 1..n {
+    for e in n1..n {
+        // objects loaded by later calls: without dependencies, or needing anything but the program
+        if rng.chance(2, 3) {
+            for j in 1..n {
+                if j != e && rng.chance(1, 3) {
+                    needs[e].push(j);
+                }
+            }
+        }
+    }
+    for i in 1..n1 {
+        for j in 1..n1 {
             if i != j && rng.chance(if j > i { 2 } else { 1 }, 6) {
                 needs[i].push(j);
             }
         }
     }
-    let mut order: Vec<usize> = (1..n).collect();
+    let mut order: Vec<usize> = (1..n1).collect();
     if rng.chance(1, 2) {
         order.reverse();
     }
@@ -1331,14 +1412,74 @@ fn gen_link(rng: &mut Rng, a: &ArchSel, sibling: bool) -> LinkCase {
     }
     let mut pre = Vec::new();
     let mut done = vec![0usize; n];
-    dfs(0, &needs, &mut pre, &mut done);
-    for j in 1..n {
+    {
+        let first: Vec<Vec<usize>> = needs.iter().map(|v| v.iter().cloned().filter(|&j| j < n1).collect()).collect();
+        dfs(0, &first, &mut pre, &mut done);
+    }
+    for j in 1..n1 {
         if !pre.contains(&j) {
             needs[0].push(j);
         }
     }
     pre.clear();
     dfs(0, &needs, &mut pre, &mut done);
+    // the history: per call, the objects it loads; `call_end[i]` = how many objects are loaded when the call that
+    // first loads object i returns (all of them are in the symbol table when i is relocated)
+    let mut call_end = vec![0usize; n];
+    for &i in &pre {
+        call_end[i] = pre.len();
+    }
+    let mut calls: Vec<String> = vec!["link".to_string()];
+    let mut cur_base: Vec<u64> = vec![0; n];
+    {
+        // bases of the first call: the program at 0, libraries at 0x42000000, 0x44000000, ... in load order
+        for (k, &i) in pre.iter().enumerate().skip(1) {
+            cur_base[i] = 0x4000_0000 + 0x0200_0000 * k as u64;
+        }
+    }
+    let mut next_lib = 0x4000_0000u64 + 0x0200_0000 * (pre.len() as u64 - 1);
+    let mut reload = false;
+    for (k, e) in (n1..n).enumerate() {
+        let base = 0x5000_0000u64 + 0x0200_0000 * k as u64;
+        let before = pre.len();
+        if pre.contains(&e) {
+            reload = true; // already loaded as a dependency of an earlier call: placed a second time
+            pre.push(e);
+        } else {
+            dfs(e, &needs, &mut pre, &mut done);
+        }
+        for (q, &i) in pre.iter().enumerate().skip(before) {
+            if call_end[i] == 0 {
+                call_end[i] = 0; // fixed below, once the call is complete
+            }
+            if q > before {
+                next_lib += 0x0200_0000;
+                cur_base[i] = next_lib;
+            }
+        }
+        cur_base[e] = base;
+        let end = pre.len();
+        for &i in pre.iter().skip(before) {
+            if call_end[i] == 0 {
+                call_end[i] = end;
+            }
+        }
+        calls.push(format!("loadelf {} {}", names[e], base));
+        if rng.chance(1, 3) {
+            // a name that is already loaded, again: where it is, or somewhere else
+            let j = *rng.pick(&pre); // (any loaded object, now and then the program itself)
+            let b = if rng.chance(1, 2) { cur_base[j] } else { 0x6000_0000 + 0x0200_0000 * k as u64 };
+            cur_base[j] = b;
+            pre.push(j);
+            reload = true;
+            calls.push(format!("loadelf {} {}", names[j], b));
+        }
+    }
+    let missing = extra > 0 && rng.chance(1, 8);
+    if missing {
+        calls.push("loadelf libnone.so 1879048192".to_string());
+        calls.push(format!("loadelf {} 1912602624", names[n - 1]));
+    }
     // exports: unique names per object, sometimes a lib repeats a name of the main program
     let mut exports: Vec<Vec<(String, u8)>> = Vec::new();
     for i in 0..n {
@@ -1354,7 +1495,7 @@ fn gen_link(rng: &mut Rng, a: &ArchSel, sibling: bool) -> LinkCase {
     let mut objs = Vec::new();
     let mut used_sibling = false;
     for i in 0..n {
-        let etype: u16 = if i == 0 && rng.chance(2, 3) { 2 } else { 3 };
+        let etype: u16 = if i == 0 && rng.chance(2, 3) { 2 } else { 3 }; // (a second program is position independent)
         let base: u64 = if etype == 2 { *rng.pick(&[0x0804_8000u64, 0x40_0000]) } else { *rng.pick(&[0u64, 0x1000, 0x2_0000]) };
         let mut o = Obj { name: names[i].clone(), c64: a.c64, le: a.le, machine: a.machine, etype, ..Default::default() };
         let plans = vec![
@@ -1372,7 +1513,7 @@ fn gen_link(rng: &mut Rng, a: &ArchSel, sibling: bool) -> LinkCase {
         o.needs = needs[i].iter().map(|&j| names[j].clone()).collect();
         // who can this object see when it is relocated?
         let visible: Vec<usize> = pre.iter().take(done[i]).cloned().filter(|&j| j != i).collect();
-        let later: Vec<usize> = pre.iter().skip(done[i]).cloned().collect();
+        let later: Vec<usize> = pre.iter().take(call_end[i]).skip(done[i]).cloned().filter(|&j| j != i).collect();
         let mut imports: Vec<String> = Vec::new();
         for _ in 0..rng.below(4) {
             if !visible.is_empty() {
@@ -1411,11 +1552,15 @@ fn gen_link(rng: &mut Rng, a: &ArchSel, sibling: bool) -> LinkCase {
             // [null, locals..., GOT-mapped: exports then imports]
             let gotsym = 1 + local_syms.len() as u64;
             let nlocal_got = 2 + rng.below(3);
-            o.dsyms = local_syms.into_iter().chain(exp_syms.iter().cloned()).chain(imp_syms.iter().cloned()).collect();
-            let nglob = exp_syms.len() + imp_syms.len();
+            // the GOT-mapped symbols (defined and undefined ones) in any order
+            let mut globs: Vec<Sym> = exp_syms.iter().cloned().chain(imp_syms.iter().cloned()).collect();
+            for k in (1..globs.len()).rev() {
+                let j = rng.below(k as u64 + 1) as usize;
+                globs.swap(k, j);
+            }
+            o.dsyms = local_syms.into_iter().chain(globs.iter().cloned()).collect();
+            let nglob = globs.len();
             let ngot = nlocal_got as usize + nglob + 1;
-            let exp_vals: Vec<u64> = exp_syms.iter().map(|s| s.value).collect();
-            let nimp = imp_syms.len();
             add_dynamic(rng, &mut o, false, ngot, Some((nlocal_got, gotsym)), &mut |rng, o, _got_at| {
                 let mut slots = data_slots.clone();
                 o.rels = Vec::new();
@@ -1432,11 +1577,8 @@ fn gen_link(rng: &mut Rng, a: &ArchSel, sibling: bool) -> LinkCase {
                 for _ in 2..nlocal_got {
                     got.push((text.vaddr + rng.below(text.filesz)) as u32);
                 }
-                for v in &exp_vals {
-                    got.push(*v as u32);
-                }
-                for _ in 0..nimp {
-                    got.push(if rng.chance(1, 2) { 0 } else { text.vaddr as u32 });
+                for g in &globs {
+                    got.push(if g.shndx != 0 { g.value as u32 } else if rng.chance(1, 2) { 0 } else { text.vaddr as u32 });
                 }
                 got.push(0x1234_5678); // one word after the GOT proper: must stay untouched
                 got
@@ -1484,8 +1626,12 @@ fn gen_link(rng: &mut Rng, a: &ArchSel, sibling: bool) -> LinkCase {
         objs.push(o);
     }
     let m = if mips { "mips" } else { "x86" };
-    let class = format!("link/{}/{}/libs{}", m, if used_sibling { "later-lib" } else { "resolved" }, nlib);
-    LinkCase { objs, class }
+    let class = if extra == 0 {
+        format!("link/{}/{}/libs{}", m, if used_sibling { "later-lib" } else { "resolved" }, nlib)
+    } else {
+        format!("hist/{}/calls{}{}{}", m, calls.len().min(5), if reload { "/reload" } else { "" }, if missing { "/missing" } else { "" })
+    };
+    LinkCase { objs, class, calls }
 }
 
 fn generate(tier: Tier, rng: &mut Rng, emit: &mut Emit) {
@@ -1554,8 +1700,9 @@ fn generate(tier: Tier, rng: &mut Rng, emit: &mut Emit) {
             14..=18 => {
                 let la = *rng.pick(&[ARCHS[0], ARCHS[0], ARCHS[2], ARCHS[3]]);
                 let sib = rng.chance(1, 4);
-                let lc = gen_link(rng, &la, sib);
-                emit.case(&lc.class, request(&lc.objs, &[], &["link".to_string()]));
+                let extra = if rng.chance(1, 2) { 0 } else { 1 + rng.below(3) as usize };
+                let lc = gen_link(rng, &la, sib, extra);
+                emit.case(&lc.class, request(&lc.objs, &[], &lc.calls));
             }
             _ => {
                 // a machine the linker has no relocations for
@@ -1581,7 +1728,7 @@ fn selftest(n: u64) -> i32 {
         let objs: Vec<Obj> = if i % 3 == 2 {
             {
                 let la = [ARCHS[0], ARCHS[2], ARCHS[3]][(i % 9 / 3) as usize];
-                gen_link(&mut rng, &la, false).objs
+                gen_link(&mut rng, &la, false, (i % 2) as usize).objs
             }
         } else {
             vec![gen_single(&mut rng, &a).0]
